@@ -16,6 +16,7 @@ From RV Require Import Model.Domain Model.InversionFrontier Proofs.C02_Inversion
 From RV Require Gen.GenTieBst Proofs.Tie_Bst Gen.GenTieAlias Proofs.Tie_Alias.
 From RV Require Import Proofs.C02_GenTie.
 From RV Require Import Model.FrontierDraw Model.InversionFrontierNd Proofs.C14_FrontierDraw Proofs.C02_InversionFrontierNd.
+From RV Require Import Proofs.C02_FrontierEdge.
 Import ListNotations.
 Open Scope Q_scope.
 
@@ -222,7 +223,13 @@ Proof. vm_compute. repeat split. Qed.
    (4) with c uniform on the positions of the deque, the index i receives (sum over c, i.e. length fr times the mean)
        len(fr) * p_i + (1 - sigma) * #{positions of fr holding i}: the deficit goes to the frontier indices only,
        in proportion to their multiplicity;
-   (5) if every index of the deque is admissible the returned state is admissible (in the grid) whatever u and c. *)
+   (5) if every index of the deque is admissible the returned state is admissible (in the grid) whatever u and c.
+   PARAMETRIC in the deque fr and in F (audit 4): nothing here says that fr is the deque the code builds; that is done by the
+   instances C02_inversion_frontier_1d_law (fr1d / maxf1d, interior origin), C02_inversion_frontier_nd_law (frnd / maxfnd) and,
+   negatively, C02_inversion_frontier_edge_origin_refuted (fr1d on an edge-origin axis).  With fr = [] the model answers proj 0
+   where np.random.choice raises; the instances have a non-empty deque and c < len.  Clause (1) = C02_inversion_admissible with the
+   symbol Frontier resolved; clause (4) is list algebra on fsegs.  sigma is the EXACT sum of prob: on a float run prob is to be
+   read as the increments of the stored float cumulative sums (see C02_inversion_frontier_origin_refuted). *)
 Theorem C02_inversion_frontier_law : forall (S : Type) (proj : Z -> S) (outside : S -> bool) (F : Z) (prob : S -> Q) (M : Z) (fr : list Z),
   (forall s, 0 <= prob s) -> (1 <= M)%Z -> (0 <= F)%Z ->
   let segs := adm_segs' proj outside F prob in
@@ -243,8 +250,9 @@ Theorem C02_inversion_frontier_law : forall (S : Type) (proj : Z -> S) (outside 
 Proof. exact @inversion_frontier_law. Qed.
 
 (* the 1-d factory instance (PairingToZ1d((-L, R), omit_zero=True), Boundary(), Domain 1-d branch = Model/Domain.v dom_1d,
-   max_frontier_indices = dom_maxf): the deque is [pair R; pair (-L)], both indices are admissible (hypothesis of (5) above),
-   the frontier states are the two END POINTS of the axis: in the grid, never the origin *)
+   max_frontier_indices = dom_maxf) with an INTERIOR origin (0 < L, 0 < R; every grid a library constructor builds): the deque
+   is [pair R; pair (-L)], both indices are admissible (hypothesis of (5) above), the frontier states are the two END POINTS of
+   the axis: in the grid, not the origin.  For L = 0 or R = 0 this is FALSE: C02_inversion_frontier_edge_origin_refuted *)
 Theorem C02_inversion_frontier_1d : forall L R : Z, (0 < L)%Z -> (0 < R)%Z ->
   let proj := z1d_project (- L) R 1 in
   Forall (fun i => In i (G proj (outside1d L R) (maxf1d L R))) (fr1d L R)
@@ -372,6 +380,96 @@ Example C02_inversion_frontier_nd_nonvacuous :
        /\ map (inv_uses_choice (sznd_project 2) (outsidend [5; 5]%Z 2) (maxfnd [5; 5]%Z 2) nd_ex_prob 3 st) [3 # 4; 7 # 8] = [false; true]).
 Proof. exact inversion_frontier_nd_nonvacuous. Qed.
 
+(* ---- wave 7 (audit 4: B11, D1) ---- *)
+
+(* the 1-d factory sampler with the REAL deque and max_frontier_indices inside the statement (fr := fr1d L R, F := maxf1d L R of
+   Model/Domain.v, is_outside = outside the grid), interior origin: for ANY probability table >= 0, _max_storage >= 1, reachable state
+   (history), uniform u and position c < len(deque) = 2 the draw returns a state s of the grid that is not the origin; for u <= sigma
+   it is the admissible state of the right-closed step function (interval length = prob s); for u > sigma it is EXACTLY
+   project(deque[c]) = R for c = 0 and -L for c = 1 *)
+Theorem C02_inversion_frontier_1d_law : forall L R : Z, (0 < L)%Z -> (0 < R)%Z ->
+  let proj := z1d_project (- L) R 1 in let outside := outside1d L R in let F := maxf1d L R in let fr := fr1d L R in
+  forall (prob : Z -> Q) (M : Z), (forall s, 0 <= prob s) -> (1 <= M)%Z ->
+  let segs := adm_segs' proj outside F prob in
+  forall st, reachable proj outside F prob M st -> forall u c, (c < length fr)%nat ->
+    exists s, snd (inv_step_f proj outside F prob M fr st u c) = Some s
+      /\ (- L <= s <= R)%Z /\ s <> 0%Z
+      /\ (u <= total segs -> exists i, locate_r 0 segs u = Some i /\ In i (G proj outside F) /\ s = proj i
+                                       /\ len_of i segs == prob s)
+      /\ (total segs < u -> s = frontier_state proj fr c /\ s = nth c [R; (- L)%Z] 0%Z).
+Proof. exact inversion_frontier_1d_law. Qed.
+
+(* F-C02-14 (finding, audit 4 D1).  On an EDGE-origin axis (L = 0 or R = 0: public CTMCGrid(h, origin_coordinate = 0, axes) through
+   MarkovChainProcess; samplingfactory.py has a `left == 0` branch) Domain.compute_total_number_of_states_and_frontier puts
+   pair(0) = -1 into the deque: no index of the enumeration, and project(-1) is the increment 0. *)
+Theorem C02_inversion_frontier_1d_edge_deque :
+  (forall R, (0 < R)%Z ->
+     fr1d 0 R = [R - 1; -1]%Z /\ maxf1d 0 R = (R - 1)%Z
+     /\ ~ In (-1)%Z (G (z1d_project 0 R 1) (outside1d 0 R) (maxf1d 0 R))
+     /\ frontier_state (z1d_project 0 R 1) (fr1d 0 R) 1 = 0%Z)
+  /\ (forall L, (0 < L)%Z ->
+     fr1d L 0 = [-1; L - 1]%Z /\ maxf1d L 0 = (L - 1)%Z
+     /\ ~ In (-1)%Z (G (z1d_project (- L) 0 1) (outside1d L 0) (maxf1d L 0))
+     /\ frontier_state (z1d_project (- L) 0 1) (fr1d L 0) 0 = 0%Z).
+Proof. exact frontier_1d_edge. Qed.
+
+(* ... hence 'never the origin' is REFUTED for every edge-origin axis, every probability table >= 0, every _max_storage >= 1, every
+   reachable state (history) and every uniform above the sum sigma of the stored probabilities (on a float run sigma is the last
+   stored float sum, which rounding puts below 1 - 2^-53 for most intensities that are not powers of two): when np.random.choice
+   picks the position of the deque holding -1 (1 for L = 0, 0 for R = 0) the sampler returns the increment 0 *)
+Theorem C02_inversion_frontier_edge_origin_refuted : forall (prob : Z -> Q) (M : Z), (forall s, 0 <= prob s) -> (1 <= M)%Z ->
+  (forall R, (0 < R)%Z -> let proj := z1d_project 0 R 1 in
+     forall st, reachable proj (outside1d 0 R) (maxf1d 0 R) prob M st ->
+     forall u, total (adm_segs' proj (outside1d 0 R) (maxf1d 0 R) prob) < u ->
+       snd (inv_step_f proj (outside1d 0 R) (maxf1d 0 R) prob M (fr1d 0 R) st u 1) = Some 0%Z)
+  /\ (forall L, (0 < L)%Z -> let proj := z1d_project (- L) 0 1 in
+     forall st, reachable proj (outside1d L 0) (maxf1d L 0) prob M st ->
+     forall u, total (adm_segs' proj (outside1d L 0) (maxf1d L 0) prob) < u ->
+       snd (inv_step_f proj (outside1d L 0) (maxf1d L 0) prob M (fr1d L 0) st u 0) = Some 0%Z).
+Proof. exact inversion_frontier_edge_origin. Qed.
+
+(* the witness of F-C02-14 on the FLOAT RUN of /repo: CTMCGrid(h = 1/4, origin_coordinate = 0, axes = [0 .. 9h]), cell masses
+   0, 51/256, 53/64, 547/256, 13/32, 161/256, 375/256, 59/256, 55/256, 57/64 (intensity 7) through MarkovChainProcess(INVERSION).
+   fe_prob = the increments of the floats InversionMethod stores in _cumulative_probabilities (so that the model's sums ARE the
+   stored floats; checked against the implementation on every run, group inversion_floatinc): they sum to 1 - 2^-52, the uniform
+   1 - 2^-53 is in (0, 1) and above the sum, the deque is [8; -1]: position 1 -> the origin, position 0 -> state 9; and the mirrored
+   grid (origin_coordinate = 9, axes = [-9h .. 0]), deque [-1; 8]: position 0 -> the origin *)
+Theorem C02_inversion_frontier_origin_refuted :
+  (exists st, inv_init (z1d_project 0 9 1) (outside1d 0 9) (maxf1d 0 9) fe_prob = Some st
+     /\ total (adm_segs' (z1d_project 0 9 1) (outside1d 0 9) (maxf1d 0 9) fe_prob) == 1 - (1 # 4503599627370496)
+     /\ 0 < fz_u /\ fz_u < 1
+     /\ fr1d 0 9 = [8; -1]%Z
+     /\ snd (inv_step_f (z1d_project 0 9 1) (outside1d 0 9) (maxf1d 0 9) fe_prob 1000000 (fr1d 0 9) st fz_u 1) = Some 0%Z
+     /\ snd (inv_step_f (z1d_project 0 9 1) (outside1d 0 9) (maxf1d 0 9) fe_prob 1000000 (fr1d 0 9) st fz_u 0) = Some 9%Z)
+  /\ (exists st, inv_init (z1d_project (-9) 0 1) (outside1d 9 0) (maxf1d 9 0) fe_prob_left = Some st
+     /\ fr1d 9 0 = [-1; 8]%Z
+     /\ snd (inv_step_f (z1d_project (-9) 0 1) (outside1d 9 0) (maxf1d 9 0) fe_prob_left 1000000 (fr1d 9 0) st fz_u 0) = Some 0%Z).
+Proof. exact inversion_frontier_origin_refuted. Qed.
+
+(* F-C02-13 on the float run of its RECORDED witness (audit 4: the older Coq witness fz_prob is a hand-made deficient table): 7-point
+   axis, cell masses 0, 1, 1, 0, 1/4, 17/4, 1/2 (intensity 7) through the factory; fz_prob_run = the increments of the stored float sums:
+   they sum to 1 - 2^-52, p(-3) = 0, u = 1 - 2^-53, position 1 of deque([pair 3, pair (-3)]) -> state -3 *)
+Theorem C02_inversion_frontier_zero_prob_run_refuted :
+  let proj := z1d_project (-3) 3 1 in
+  exists st, inv_init proj (outside1d 3 3) (maxf1d 3 3) fz_prob_run = Some st
+    /\ total (adm_segs' proj (outside1d 3 3) (maxf1d 3 3) fz_prob_run) == 1 - (1 # 4503599627370496)
+    /\ snd (inv_step_f proj (outside1d 3 3) (maxf1d 3 3) fz_prob_run 1000000 (fr1d 3 3) st fz_u 1) = Some (-3)%Z
+    /\ fz_prob_run (-3) == 0.
+Proof. exact inversion_frontier_zero_prob_run_refuted. Qed.
+
+(* non-vacuity of C02_inversion_frontier_edge_origin_refuted and C02_inversion_frontier_1d_law: states reached after two draws with
+   _max_storage = 2 (a restart), the hypothesis sigma < u holds for u = 1 - 2^-53, and a uniform below the sum is served normally *)
+Example C02_frontier_edge_nonvacuous :
+  (exists st, reachable (z1d_project 0 9 1) (outside1d 0 9) (maxf1d 0 9) fe_prob 2 st
+       /\ total (adm_segs' (z1d_project 0 9 1) (outside1d 0 9) (maxf1d 0 9) fe_prob) < fz_u
+       /\ snd (inv_step_f (z1d_project 0 9 1) (outside1d 0 9) (maxf1d 0 9) fe_prob 2 (fr1d 0 9) st fz_u 1) = Some 0%Z
+       /\ snd (inv_step_f (z1d_project 0 9 1) (outside1d 0 9) (maxf1d 0 9) fe_prob 2 (fr1d 0 9) st (1 # 2) 1) = Some 4%Z)
+  /\ (exists st, reachable (z1d_project (-3) 3 1) (outside1d 3 3) (maxf1d 3 3) fz_prob_run 2 st
+       /\ length (fr1d 3 3) = 2%nat
+       /\ snd (inv_step_f (z1d_project (-3) 3 1) (outside1d 3 3) (maxf1d 3 3) fz_prob_run 2 (fr1d 3 3) st fz_u 0) = Some 3%Z
+       /\ snd (inv_step_f (z1d_project (-3) 3 1) (outside1d 3 3) (maxf1d 3 3) fz_prob_run 2 (fr1d 3 3) st (1 # 2) 0) = Some 2%Z).
+Proof. exact frontier_edge_nonvacuous. Qed.
+
 (* F-C02-6 (recorded finding, current tree): the right-closed samplers send u = 0 to the first enumerated state
    even when its probability is zero *)
 Theorem C02_inversion_zero_uniform_refuted :
@@ -440,6 +538,12 @@ Print Assumptions C02_gen_alias_nonvacuous.
 Print Assumptions C02_inversion_frontier_nd.
 Print Assumptions C02_inversion_frontier_nd_law.
 Print Assumptions C02_inversion_frontier_nd_nonvacuous.
+Print Assumptions C02_inversion_frontier_1d_law.
+Print Assumptions C02_inversion_frontier_1d_edge_deque.
+Print Assumptions C02_inversion_frontier_edge_origin_refuted.
+Print Assumptions C02_inversion_frontier_origin_refuted.
+Print Assumptions C02_inversion_frontier_zero_prob_run_refuted.
+Print Assumptions C02_frontier_edge_nonvacuous.
 Print Assumptions C02_inversion_zero_uniform_refuted.
 Print Assumptions C02_bstadapted1d_zero_uniform_refuted.
 Print Assumptions C02_inversion_overflow_orig.
